@@ -2,7 +2,7 @@
 src/twisted/names/_rfc1982.py on every run; the correspondence below validates the translator)."""
 from __future__ import annotations
 
-from harness.common import REPO, VERIF, Failure, Spec
+from harness.common import COQ, REPO, Failure, Spec
 from translate import c34 as tr
 
 
@@ -121,7 +121,7 @@ SPEC = Spec(
                "Definition run (c : Z + (Z * Z * Z)) := match c with inl w => run_table w | inr p => run_pair p end.",
     coq_fn="run",
     to_coq=to_coq,
-    regen=lambda: tr.regen(REPO, VERIF),
+    regen=lambda: tr.regen(REPO, COQ),
     nontrivial=lambda c, o: c["kind"] == "table" or c["a"] != c["b"],
     histogram=hist,
     shrink=None,
